@@ -470,3 +470,60 @@ def expr_width(design, mod, e):
     sc = Scope(design, mod, ())
     v = ev(sc, e, ("sig", 1))
     return None if isinstance(v, dict) else len(v)
+
+
+# ------------------------------------------------------------------------------------------------
+# grey zone: groups of ports defined in terms of themselves through a slice / concatenation
+# ------------------------------------------------------------------------------------------------
+def _prefs_in(e, out):
+    k = e[0]
+    if k == "pref":
+        out.append((e[1], e[2]))
+    elif k in ("idx", "rng"):
+        _prefs_in(e[1], out)
+    elif k == "cat":
+        for p in e[1]:
+            _prefs_in(p, out)
+    elif k in ("anon", "dict"):
+        for _n, p in e[1]:
+            _prefs_in(p, out)
+    return out
+
+
+def derivation_cycle(design):
+    """True if, in some module, a port's connection slices / concatenates a reference to a port of its own
+    reference group (directly or through other groups): `i0.b = Concat(i1.b); i1.b = i0.b`.  Such designs define a net
+    in terms of itself; the property's "cycles" are cycles of plain references, so these are judged raise-or-correct."""
+    for mod in design["modules"].values():
+        uf = UF()
+        derived = []
+        for d in mod["decls"]:
+            if d[0] not in ("inst", "array", "pair"):
+                continue
+            for pname, e in conns_of(d):
+                me = (d[1], pname)
+                uf.find(me)
+                if e[0] == "pref":
+                    uf.union(me, (e[1], e[2]))
+                else:
+                    for r in _prefs_in(e, []):
+                        derived.append((me, r))
+        graph = {}
+        for a, b in derived:
+            graph.setdefault(uf.find(a), set()).add(uf.find(b))
+        state = {}
+
+        def dfs(n):
+            state[n] = 1
+            for m in graph.get(n, ()):
+                if state.get(m) == 1:
+                    return True
+                if m not in state and dfs(m):
+                    return True
+            state[n] = 2
+            return False
+
+        for n in list(graph):
+            if n not in state and dfs(n):
+                return True
+    return False
